@@ -695,11 +695,22 @@ fn remove_from_set(kind: u8, old: &mut SetVal, del: &SetVal) {
         (SetVal::Nets(a), SetVal::Nets(b)) => a.retain(|e| !b.contains(e)),
         (SetVal::Strs(a), SetVal::Strs(b)) => {
             if kind == K_COMM {
-                let dv: Vec<Option<u32>> = b.iter().map(|p| comm_pattern_value(p)).collect();
-                a.retain(|e| !dv.contains(&comm_pattern_value(e)));
+                a.retain(|e| {
+                    !b.iter().any(|d| match (comm_pattern_value(e), comm_pattern_value(d)) {
+                        (Some(x), Some(y)) => x == y,
+                        (None, None) => e == d,
+                        _ => false,
+                    })
+                });
             } else if kind == K_ASPATH {
-                let dv: Vec<_> = b.iter().map(|p| parse_single(p)).collect();
-                a.retain(|e| !dv.contains(&parse_single(e)));
+                // single-AS forms are compared by what they mean, general patterns by their text
+                a.retain(|e| {
+                    !b.iter().any(|d| match (parse_single(e), parse_single(d)) {
+                        (Some(x), Some(y)) => x == y,
+                        (None, None) => e == d,
+                        _ => false,
+                    })
+                });
             } else {
                 a.retain(|e| !b.contains(e));
             }
